@@ -315,8 +315,17 @@ def extract_formatters(emit):
         raise ExtractError(f"Formatter.gen_format: alias template not found ({tmpl!r})")
     parts = tmpl.split("\x00")
     emit(f"def gen_format_alias_parts : List (List Char) := {lean_list(parts)}")
+    # regex() may delegate to a cached helper (`cls._regex()`): follow the calls on `cls`
     fn = find_func(tree, "regex", "Formatter")
     pats = [p for m, p in re_call_patterns(fn) if m == "finditer"]
+    if not pats:
+        for n in ast.walk(fn):
+            if isinstance(n, ast.Call) and isinstance(n.func, ast.Attribute) and isinstance(n.func.value, ast.Name) and n.func.value.id == "cls":
+                try:
+                    helper = find_func(tree, n.func.attr, "Formatter")
+                except Exception:  # noqa: BLE001
+                    continue
+                pats += [p for m, p in re_call_patterns(helper) if m == "finditer"]
     if len(pats) != 1:
         raise ExtractError("Formatter.regex: token pattern not found")
     emit(f"def regex_token_re : List Char := {lean_str(pats[0])}")
@@ -481,6 +490,31 @@ def extract_probes(emit):
     emit(f"def const_escape_chars : List Char := {lean_str(''.join(esc_chars))}")
     emit(f"def const_aliases_source : Bool := {'true' if after_src != before else 'false'}")
     emit(f"def const_values_aliases : Bool := {'true' if after_vals != before else 'false'}")
+    # does a change of the dictionary regex() / formatter() hands out reach the class?  (fresh classes: regex() is cached per class)
+    C2 = F.dict2const({"%n": "abc", "%d": "dev"}, "ProbeConst2")
+    rx0 = dict(C2.regex())
+    handed = C2.regex()
+    handed["%n"] = "(?P<november>q)"
+    handed.pop("%d", None)
+    fm = C2.formatter()
+    fm["%n"]["value"] = "q"
+    fm["%n"]["regex"] = "(?P<november>q)"
+    reached = dict(C2.regex()) != rx0 or C2.formatter()["%n"]["value"] != "abc"
+    try:
+        reached = reached or C2.parse("abc", "%n").format("%n") != "abc"
+    except Exception:  # noqa: BLE001
+        reached = True
+    emit(f"def const_regex_aliases : Bool := {'true' if reached else 'false'}")
+    # the same for an ordinary formatter class
+    rx0 = dict(F.Naming.regex())
+    handed = F.Naming.regex()
+    saved = dict(handed)
+    handed["%n"] = "(?P<strings>q)"
+    reached = dict(F.Naming.regex()) != rx0
+    if reached:  # undo, the cache is shared with the rest of this process
+        handed.clear()
+        handed.update(saved)
+    emit(f"def fmt_regex_aliases : Bool := {'true' if reached else 'false'}")
 
 
 SECTIONS = [("versions", extract_versions), ("formatters", extract_formatters), ("assets", extract_assets), ("probes", extract_probes)]
